@@ -222,6 +222,43 @@ def cropExportRead (fl : Rat → Rat) (s : C01.Src) (a b : Int) : Except String 
     | .ok d => (fromDataset fl d).map some
   else .ok none
 
+/-! ### Calibration of a (sliced) force channel: `ForceCalibrationList.from_field`, `Slice.calibration` -/
+
+/-- one group under `Calibration/`: per force channel that has a sub-group there, the value of the time field
+    (`Stop time (ns)`) if that sub-group carries it -/
+structure CalGroup where
+  channels : List (String × Option Int)
+deriving Repr, DecidableEq
+
+/-- `from_field`: walk the groups in h5py order; keep those that hold the channel and whose entry has the time field.
+    An item is identified by the position of its group. -/
+def calFromField (groups : List CalGroup) (ch : String) : List CalItem :=
+  groups.zipIdx.filterMap fun (g, i) =>
+    match g.channels.lookup ch with
+    | some (some t) => some ⟨t, i⟩
+    | _ => none
+
+/-- `Slice.calibration`: nothing without items (`if self._calibration:`); otherwise the filter over the source's own
+    `start`/`stop`; an empty time series has neither (`IndexError` → `[]`). -/
+def sliceCalibration (items : List CalItem) (src : C01.Src) : List CalItem :=
+  if items.isEmpty then []
+  else match src with
+    | .ts [] => []
+    | _ => filterCalibration items src.start src.stop
+
+/-- `file[group][channel].calibration` and `file[group][channel][a:b].calibration` -/
+def channelCalibration (groups : List CalGroup) (ch : String) (s : C01.Src) (w : Option (Int × Int)) : List CalItem :=
+  let src := match w with
+    | none => s
+    | some (a, b) => s.getitem (.ts a) (.ts b)
+  sliceCalibration (calFromField groups ch) src
+
+/-- sample spacing that closes a channel's time range: the period of a continuous channel, 1 ns after the last
+    sample of a time series -/
+def stepOf : C01.Src → Int
+  | .cont c => c.dt
+  | _ => 1
+
 /-! ### protocol -/
 open Verif.Proto
 
@@ -333,6 +370,17 @@ def showExcept {α} (f : α → String) : Except String α → Option String
   | .error "outside-model" => none
   | .error e => some e
 
+/-- `@name=val,name=N,@…`: one `@` per group, `_` for a space in a channel name, `N` for a missing time field -/
+def calGroups? (s : String) : Option (List CalGroup) :=
+  if s == "-" then some []
+  else
+    ((s.splitOn "@").drop 1).mapM fun g => do
+      let entries ← ((g.splitOn ",").filter (· ≠ "")).mapM fun e =>
+        match e.splitOn "=" with
+        | [n, v] => if v == "N" then some (n.replace "_" " ", none) else (v.toInt?).map fun t => (n.replace "_" " ", some t)
+        | _ => none
+      some ⟨entries⟩
+
 def handle : List String → Option String
   | ["c05.cal", times, start, stop] => do
     let items ← calItems? times
@@ -402,6 +450,15 @@ def handle : List String → Option String
       let a ← int? a; let b ← int? b
       showExcept (fun (r : Option C01.Src) => match r with | none => "absent" | some x => C01.showSrc x) (cropExportRead flDouble s a b)
     | _ => none
+  | "c05.calchan" :: groups :: ch :: rest => do
+    -- c05.calchan <groups> <channel> <src…> [a b]  -> positions of the calibration groups listed
+    let groups ← calGroups? groups
+    let (s, ws) ← C01.mkSrc? rest
+    let w ← match ws with
+      | [] => some none
+      | [a, b] => do let a ← int? a; let b ← int? b; some (some (a, b))
+      | _ => none
+    some (showNatList ((channelCalibration groups (ch.replace "_" " ") s w).map (·.id)))
   | _ => none
 
 end Verif.C05
